@@ -275,7 +275,10 @@ def register(T, repo):
         ex, st = A['$ex'], A['$st']
         if not (ex.cur_func or '').endswith('.expand_display_math'):
             return True
-        out = st.env.get('out')
+        env = st.env
+        while '$caller' in env:     # call from an inlined helper: the
+            env = env['$caller']    # frame of expand_display_math itself
+        out = env.get('out')
         return bool(isinstance(out, TokList) and isinstance(
             A['toks'], TokList) and out.lid == A['toks'].lid)
     T.add(FContract(
@@ -711,22 +714,28 @@ def register(T, repo):
     def expansion_is_reread(E0, E1):
         # C09 ("nested uses expand fully", the expansion behaves like the
         # body written in place): what a macro, an environment begin or an
-        # \\item expands to goes back to the input and is read again -- the
-        # output list is not touched in that iteration
-        ex = E1['$ex']
-        tok = E1['tok']
-        o = tok.obj if isinstance(tok, Opt) else tok
-        isn = tok.isnone if isinstance(tok, Opt) else False
-        if not isinstance(o, Obj):
+        # \\item expands to goes back to the input and is read again -- in an
+        # iteration that called expand_macro / begin_environment /
+        # expand_item (ghost call counter) the output list is not touched.
+        # (Definitions -- \\def and whatever else the code treats like it --
+        # are not expansions: parse_def_macro is not counted.)
+        n0 = E0['$st'].ghost.get('$reread_calls', 0)
+        n1 = E1['$st'].ghost.get('$reread_calls', 0)
+        if n1 == n0:
             return True
-        isdef = sym.seq_eq(lift_str(o.fields['txt']), '\\def')
-        reread = And(Not(isn), Or(
-            And(tm.cls_is(ex, o, D + 'MacroToken'), Not(isdef)),
-            tm.cls_is(ex, o, D + 'BeginToken', D + 'ItemToken')))
-        return Implies(reread, zint(E1['out'].length()) ==
-                       zint(E0['out'].length()))
+        return zint(E1['out'].length()) == zint(E0['out'].length())
     lp.body_post.append(('expansion-goes-back-to-the-input',
                          expansion_is_reread))
+
+
+    def _count_reread(c_):
+        prev = c_.effects
+
+        def eff(ex, st, A, prev=prev):
+            st.ghost['$reread_calls'] = st.ghost.get('$reread_calls', 0) + 1
+            if prev:
+                prev(ex, st, A)
+        c_.effects = eff
     loop_parser_shapes(lp)
     lp.shapes['out'] = lambda E: tm.PreOutList(E['src'])
     lp.shapes['tok'] = lambda E: tm.OptTokS(tm.DocTok(E['src']))
@@ -1126,4 +1135,6 @@ def register(T, repo):
     c.loop(0).shapes['out'] = lambda E: tm.WorkList(E['src'])
     c.loop(1).shapes['buf'] = lambda E: tm.WorkList(
         E['src'], lambda n: zint(n) >= 1)
+    for q_ in ('expand_macro', 'begin_environment', 'expand_item'):
+        _count_reread(T.get(PAR + q_))
     return T
